@@ -43,6 +43,12 @@ _Bool _ZSteqIcSt11char_traitsIcESaIcEEbRKNSt7__cxx1112basic_stringIT_T0_T1_EEPKS
   __CPROVER_assert(p != 0, "std::operator==(string, const char*): null C string");
   return STR_ID(a) == __cstr_id(p);
 }
+/* bool std::operator==(const std::string&, const std::string&) */
+_Bool _ZSteqIcEN9__gnu_cxx11__enable_ifIXsrSt9__is_charIT_E7__valueEbE6__typeERKNSt7__cxx1112basic_stringIS3_St11char_traitsIS3_ESaIS3_EEESE_(const struct std_string *a, const struct std_string *b)
+{
+  LIVE((void *)a, 32, "std::operator==(string, string)"); LIVE((void *)b, 32, "std::operator==(string, string)");
+  return STR_ID(a) == STR_ID(b);
+}
 /* const char * Error::what() const (virtual): formats into a static buffer; the model returns that buffer, its text has identity g_what_id */
 struct Error;
 const char *VCALL_Error_what(const struct Error *e) { (void)e; return g_whatbuf; }
